@@ -51,17 +51,82 @@ META = {
 OPS_C16 = (['create'] * 8 + ['get'] * 4 + ['select'] * 7 + ['read'] * 6 + ['setattr'] * 18 + ['set'] * 12 +
            ['syncupdate'] * 8 + ['sync'] * 8 + ['expire'] * 7 + ['expireall'] * 2 + ['expireallcls'] * 1 +
            ['destroy'] * 4 + ['pickle'] * 5 + ['drop'] * 1 + ['oobupdate'] * 2 + ['oobdelete'] * 1 + ['deletemany'] * 1 + ['unpickle'] * 4 + ['iter'] * 1 + ['next'] * 3 + ['readfk'] * 6)
-W_C16 = {'ops': OPS_C16, 'classes': [1, 1, 1, 1, 1, 5, 5, 5, 3, 0, 0, 2, 4, 7, 9, 9, 8, 12, 13, 13, 13, 10, 11]}
+W_C16 = {'ops': OPS_C16, 'classes': [1, 1, 1, 1, 1, 5, 5, 5, 3, 0, 0, 2, 4, 7, 9, 9, 8, 12, 13, 13, 13, 10, 11, 15, 15, 15, 16, 16, 14]}
+
+
+KEY_SPLIT = 'C16:subclass-set-splits-inherited-column'
+
+
+def probe_subclass_set(ctx):
+    """finding: in a plain subclass, set() writes the INHERITED column by a separate setattr after the child's own
+    columns were committed.  Lazy child: b = B(x=1, y=2); b.set(y=7, x=<invalid>) raises, yet y=7 stays pending with
+    dirty False and the next syncUpdate() writes it."""
+    from vlib import sqlo
+    sqlo.setup()
+    from sqlobject import SQLObject, IntCol
+    conn = c05.make_conn_class()(':memory:')
+    A = type(sqlo.uniq('C16SubA'), (SQLObject,), {'_connection': conn, 'x': IntCol(default=None),
+                                                  'sqlmeta': type('sqlmeta', (), {'table': 't_s16_a'})})
+    B = type(sqlo.uniq('C16SubB'), (A,), {'y': IntCol(default=None),
+                                          'sqlmeta': type('sqlmeta', (), {'table': 't_s16_b', 'lazyUpdate': True})})
+    B.createTable()
+    what = None
+    try:
+        b = B(x=1, y=2)
+        try:
+            b.set(y=7, x='bad')
+            refused = False
+        except Exception:
+            refused = True
+        pending = dict(b._SO_createValues)
+        dirty = bool(b.sqlmeta.dirty)
+        conn.stmts = []
+        b.syncUpdate()
+        ups = [q for q in conn.stmts if q.startswith('UPDATE')]
+        cur = conn._memoryConn.cursor()
+        cur.execute('SELECT x, y FROM t_s16_b WHERE id = %d' % b.id)
+        row = tuple(cur.fetchone())
+        cur.close()
+        if refused and (pending or dirty or ups or row != (1, 2)):
+            what = ('lazy subclass B(A): b = B(x=1, y=2); b.set(y=7, x=<invalid>) raised, yet pending=%r dirty=%r; '
+                    'syncUpdate() then sent %r, row %r' % (pending, dirty, ups, row))
+        elif not refused:
+            what = 'set(y=7, x=<invalid>) of the lazy subclass did not raise'
+    except Exception as ex:
+        what = 'subclass set() witness raised %s' % sqlo.exc_name(ex)
+    ctx.case(('probe', 'subclass-set'), sample={'probe': 'set() of a plain subclass with an inherited column', 'failed': bool(what)},
+             kind='directed probe')
+    if what:
+        if c05.finding_listed(KEY_SPLIT):
+            ctx.oracle_fail(KEY_SPLIT, what, {'probe': 'subclass_set', 'cache': True, 'mode': 'B', 'ops': []})
+        else:
+            ctx.note('NOT YET LISTED finding %s: %s' % (KEY_SPLIT, what))
 
 
 def run(ctx):
     c05.env(True)
     c05.env(False)
+    probe_subclass_set(ctx)
     n = ctx.budget(3000, 18000)
     c05.drive(ctx, 'C16', W_C16, n, 25 if ctx.tier == 'quick' and not ctx.deep else 50)
 
 
 def replay(case):
+    if case.get('probe') == 'subclass_set':
+        class _C(object):
+            fails = []
+
+            def case(self, *a, **k):
+                pass
+
+            def note(self, t):
+                self.fails.append(t)
+
+            def oracle_fail(self, key, what, case):
+                self.fails.append(what)
+        c = _C()
+        probe_subclass_set(c)
+        return (not c.fails), '\n'.join(c.fails) or 'the witness no longer reproduces'
     r = c05.run_history(case['cache'], case['mode'], [list(o) for o in case['ops']], 'C16')
     bad = [f for f in r.fails if f[0] == case.get('kind', f[0])]
     txt = '\n'.join('%s [%s]: %s' % f for f in r.fails) or 'no oracle failure on this history'
